@@ -369,6 +369,40 @@ func (rt *RT) Run(s *Script, method string, p Payloads, cl ClientSide, found fun
 					bad(k, "client-recvend", "expected the end of the handler's stream, got %d bytes, status %v", len(b), st)
 					return
 				}
+			case "response-start":
+				// a goroutine of the caller waits in Response
+				go func() {
+					var r cres
+					defer func() {
+						if e := recover(); e != nil {
+							r.pn = fmt.Sprint(e)
+						}
+						callc <- r
+					}()
+					r.b, r.st = cl.Response()
+				}()
+				time.Sleep(OpTimeout / 300) // let it get inside
+			case "free":
+				// ... and another goroutine frees the call
+				if pn := safely(func() { cl.Free() }); pn != "" {
+					bad(k, "panic:client", "Free while another goroutine waits in Response: %s", pn)
+					return
+				}
+				freed = true
+			case "response-join":
+				select {
+				case r := <-callc:
+					if r.pn != "" {
+						bad(k, "panic:client", "Response (joined): %s", r.pn)
+						return
+					}
+					if step.Expect != "any" {
+						checkOutcome(k, step.Expect, r.b, r.st)
+					}
+				case <-time.After(OpTimeout):
+					bad(k, "hang:response", "the Response that was waiting did not return within %v after the handler returned", OpTimeout)
+					return
+				}
 			case "response":
 				var b []byte
 				var st status.Status
@@ -460,7 +494,7 @@ func (rt *RT) Run(s *Script, method string, p Payloads, cl ClientSide, found fun
 		}
 	}
 	_ = lost
-	if !blocking {
+	if !blocking && !freed {
 		if pn := safely(func() { cl.Free() }); pn != "" {
 			found("panic:client", "Free: "+pn)
 		}
